@@ -164,6 +164,15 @@ def run(ctx):
     pool = NOT_XML + NOT_MATHML
     for x in pool:          # the whole pool in both tiers: it is cheap, and sampling it once hid a known panic
         recovery(pre + [{"op": "set_mathml", "xml": rng.choice(VALID)}] * (rng.random() < 0.5) + [{"op": "set_mathml", "xml": x}] + after_calls(rng), "malformed input")
+    # stream 3a: rows over small alphabets, one per merging pass of the clean-up (dots, primes, underscores, bars, dashes, separators): these passes index
+    # their neighbours (`preceding_siblings[len-1]`, `children[i-2]`), and a token at the edge of a row is where such an index leaves the row
+    fam = [canon_run.to_xml(x) for x in canon_run.merge_family(rng, 400 if ctx.tier == "quick" else 12000)]
+    for k in range(0, len(fam), 20):
+        batch = fam[k:k + 20]
+        rep = run_session(pre + [{"op": "set_mathml", "xml": x} for x in batch], "merge-pass rows")
+        if len(rep) < len(pre) + len(batch) or any(r.get("r") in ("panic", "abort", "timeout") for r in rep):
+            for x in batch:          # a crash ends the session: the rest of the batch one by one
+                run_session(pre + [{"op": "set_mathml", "xml": x}], "merge-pass rows")
     # stream 3: generated trees (degenerate children everywhere) and their mutations
     for _ in range(120 if ctx.tier == "quick" else 6000):
         t = canon_run.N("math", [canon_run.gen_tree(rng, rng.randrange(0, 4))] if rng.random() < 0.8 else [canon_run.gen_degenerate(rng) for _ in range(rng.randrange(0, 3))])
